@@ -9,6 +9,7 @@ from mc.props import hist_common as HC
 from mc.runner import Result
 
 PROPERTY = "C12"
+PRELUDE = False     # see mc/prelude.py: this check manages the library state itself
 RULE = ("state = module-level state of the selfies package + caller-held objects after a history of configuration calls "
         "(deduplicated by structural fingerprint); transition = one of the %d menu operations on the real library; "
         "breadth-first to the stated depth with the oracle evaluated in every state; non-trivial = distinct states"
@@ -23,7 +24,7 @@ ASSUMPTIONS = [
 MENU = HC.CONFIG_OPS
 # fixed-history scope "rejection-grid": every kind of illegal table (illegal value kinds x key kinds x entry first / last,
 # malformed key spellings) applied in four base states; indices into MENU_X, never transitions of the BFS
-MENU_X = MENU + HC.REJECTION_GRID
+MENU_X = MENU + HC.REJECTION_GRID + HC.KEY_NEIGHBOURHOOD
 _NAMES = [op.name for op in MENU]
 GRID_PREFIXES = [(), ("set(%s)" % HC.json.dumps(HC.T1, sort_keys=True),), ("set(\"octet_rule\")",),
                  ("set(%s)" % HC.json.dumps(HC.T2, sort_keys=True), "alphabet")]
@@ -37,7 +38,10 @@ def plan(tier, seed):
     depth = 5 if tier == "thorough" else 4
     return {"scopes": [{"name": "level-%d" % d, "depth": d} for d in range(0, depth + 1)] + [
                 {"name": "rejection-grid", "illegal_tables": [op.name for op in HC.REJECTION_GRID],
-                 "base_histories": [list(p) for p in GRID_PREFIXES]}],
+                 "base_histories": [list(p) for p in GRID_PREFIXES]},
+                {"name": "key-neighbourhood", "tables": len(HC.KEY_NEIGHBOURHOOD), "base_history": list(GRID_PREFIXES[1]),
+                 "desc": "edit-distance-1 neighbourhood (131 characters) of the keys C, Cl, Fe+2, N-1, O+12, each next to valid "
+                         "entries; the model says which neighbours are valid"}],
             "tasks": [], "bounds": {"depth": depth, "menu": [op.name for op in MENU]}, "depth": depth}
 
 
@@ -48,6 +52,9 @@ def explore(submit, plan, total, tier, seed):
     HC.explore(MENU_X, submit, total, plan["depth"], n_ops=len(MENU))
     hists = [tuple(_NAMES.index(n) for n in p) + (len(MENU) + k,) for p in GRID_PREFIXES for k in range(len(HC.REJECTION_GRID))]
     submit([("rejection-grid", (hists[k::32],)) for k in range(32)])
+    base = len(MENU) + len(HC.REJECTION_GRID)
+    hists = [tuple(_NAMES.index(n) for n in GRID_PREFIXES[1]) + (base + k,) for k in range(len(HC.KEY_NEIGHBOURHOOD))]
+    submit([("key-neighbourhood", (hists[k::64],)) for k in range(64)])
 
 
 def finish(total, tier, seed):
